@@ -57,7 +57,7 @@ impl Story {
 
         // Don't create choice if choice point doesn't pass conditional
         if choice_point.has_condition() {
-            let condition_value = self.get_state_mut().pop_evaluation_stack();
+            let condition_value = self.get_state_mut().pop_evaluation_stack()?;
             if !self.is_truthy(condition_value)? {
                 show_choice = false;
             }
@@ -68,11 +68,11 @@ impl Story {
         let mut tags: Vec<String> = Vec::with_capacity(0);
 
         if choice_point.has_choice_only_content() {
-            choice_only_text = self.pop_choice_string_and_tags(&mut tags);
+            choice_only_text = self.pop_choice_string_and_tags(&mut tags)?;
         }
 
         if choice_point.has_start_content() {
-            start_text = self.pop_choice_string_and_tags(&mut tags);
+            start_text = self.pop_choice_string_and_tags(&mut tags)?;
         }
 
         // Don't create choice if player has already read this content
@@ -156,9 +156,12 @@ impl Story {
         self.choose_path(&choice.target_path, false)
     }
 
-    fn pop_choice_string_and_tags(&mut self, tags: &mut Vec<String>) -> String {
-        let obj = self.get_state_mut().pop_evaluation_stack();
-        let choice_only_str_val = Value::get_value::<&StringValue>(obj.as_ref()).unwrap();
+    fn pop_choice_string_and_tags(&mut self, tags: &mut Vec<String>) -> Result<String, StoryError> {
+        let obj = self.get_state_mut().pop_evaluation_stack()?;
+        let choice_only_str_val =
+            Value::get_value::<&StringValue>(obj.as_ref()).ok_or_else(|| {
+                StoryError::InvalidStoryState("Expected the text of a choice".to_owned())
+            })?;
 
         while !self.get_state().evaluation_stack.is_empty()
             && self
@@ -170,7 +173,7 @@ impl Story {
         {
             let tag = self
                 .get_state_mut()
-                .pop_evaluation_stack()
+                .pop_evaluation_stack()?
                 .into_any()
                 .downcast::<Tag>()
                 .unwrap();
@@ -178,6 +181,6 @@ impl Story {
             // order
         }
 
-        choice_only_str_val.string.to_string()
+        Ok(choice_only_str_val.string.to_string())
     }
 }
